@@ -104,6 +104,16 @@ func (x *Exec) registerIntrinsics() {
 	reg([]string{"math/bits.Len64", "math/bits.Len"}, func(p *Path, fn *ssa.Function, a []Value) (Value, *Panic) {
 		return lenChain(p, T(a[0]), 64), nil
 	})
+	// math/big's bitLen smears the top word with shifts and ORs (constant-time
+	// hardening) before calling bits.Len; its value is simply the bit length
+	reg([]string{"(math/big.nat).bitLen"}, func(p *Path, fn *ssa.Function, a []Value) (Value, *Panic) {
+		x := a[0].(SliceV)
+		if x.Len == 0 {
+			return p.C.Int(0), nil
+		}
+		top := x.Obj.Cells[x.Off+x.Len-1].(*term.Term)
+		return p.C.AddC(lenChain(p, top, 64), big.NewInt(int64(64*(x.Len-1)))), nil
+	})
 	reg([]string{"math/bits.Len32"}, func(p *Path, fn *ssa.Function, a []Value) (Value, *Panic) {
 		return lenChain(p, T(a[0]), 32), nil
 	})
